@@ -78,9 +78,17 @@ def run(facts, res):
     if u is None:
         res.floor("U2", "update_object", 0, 1)
     else:
-        sites = [s for s in cg.sites[u.path] if s.callee is not None and s.callee.target() in
-                 ("revisiontree::RevisionTree::add", "datastorage::DataStorage::write_object")]
-        res.floor("U2", "tree add + object write in update_object", len(sites), 2)
+        # sites (possibly through an extracted private helper) that add a revision to the tree / stage the object;
+        # the delegation to the public create_object (object does not exist yet) is a different path
+        sites = []
+        for s_ in cg.sites[u.path]:
+            if s_.callee is None or s_.fanout:
+                continue
+            e_ = eff.site_effects(s_)
+            if (("revisiontree::RevisionTree", "revisions") in e_ or ("datastorage::DataStorage", "stage") in e_) and \
+                    not any(t_.public and t_.impl_adt == "melda::Melda" for t_ in s_.targets):
+                sites.append(s_)
+        res.floor("U2", "tree add + object write in update_object", len(sites), 1)
         from ..conds import all_edge_lits
         from ..cfg import cfg_of as _cfg
         ucfg = _cfg(u)
